@@ -1,6 +1,10 @@
 package main
 
 import (
+	"github.com/olive-io/bpmn/v2/pkg/tracing"
+	"github.com/olive-io/bpmn/schema"
+	"sync/atomic"
+	"context"
 	"github.com/olive-io/bpmn/v2/pkg/data"
 	bpmn "github.com/olive-io/bpmn/v2"
 	"fmt"
@@ -340,6 +344,87 @@ func runC04(env *Env) {
 				rep.Violate("C04-current-values", cs, fmt.Sprintf("the second gateway must route the token to %s only; log: %s", want, logString(l)))
 			}
 			in.Close()
+		}
+	}
+	// many instances of one document at the same time, each with its own value: every token is routed by ITS conditions
+	// (start -> exclusive gateway -> end_i guarded by want == i, four ways, no default)
+	{
+		p := &Prog{}
+		p.Node("start", "start")
+		p.Node("xor", "S")
+		p.Flow("start", "S", "")
+		for i := 0; i < 4; i++ {
+			p.Node("end", fmt.Sprintf("e%d", i))
+			p.Flow("S", fmt.Sprintf("e%d", i), fmt.Sprintf("want == %d", i))
+		}
+		defs, err := ParseDefs(p.XML(""))
+		must(err)
+		instances := 2400
+		if env.Thorough() {
+			instances = 24000
+		}
+		cs := fmt.Sprintf("%d instances of start -> exclusive gateway -> 4 end events guarded by want == i, 12 at a time, each with its own value of want", instances)
+		env.Current(cs)
+		var procElem *schema.Process
+		for i := range *defs.Processes() {
+			procElem = &(*defs.Processes())[i]
+		}
+		var next, wrong int64
+		var first atomic.Value
+		var wg sync.WaitGroup
+		for w := 0; w < 12; w++ {
+			wg.Add(1)
+			go func() {
+				defer wg.Done()
+				for {
+					k := atomic.AddInt64(&next, 1)
+					if k > int64(instances) {
+						return
+					}
+					want := int(k % 4)
+					ctx, cancel := context.WithCancel(context.Background())
+					inst, err := bpmn.NewProcess(procElem, defs, bpmn.WithContext(ctx), bpmn.WithIdGenerator(sharedGen), bpmn.WithVariables(map[string]any{"want": want}))
+					must(err)
+					ch := inst.Tracer().SubscribeChannel(make(chan tracing.ITrace, 128))
+					must(inst.StartAll(ctx))
+					got := []string{}
+					deadline := time.After(3 * time.Second)
+				loop:
+					for {
+						select {
+						case tr, ok := <-ch:
+							if !ok {
+								break loop
+							}
+							switch t := tracing.Unwrap(tr).(type) {
+							case bpmn.VisitTrace:
+								if id := nodeId(t.Node); strings.HasPrefix(id, "e") {
+									got = append(got, id)
+								}
+							case bpmn.ErrorTrace:
+								got = append(got, "error")
+							case bpmn.CeaseFlowTrace:
+								break loop
+							}
+						case <-deadline:
+							got = append(got, "timeout")
+							break loop
+						}
+					}
+					cancel()
+					if len(got) != 1 || got[0] != fmt.Sprintf("e%d", want) {
+						atomic.AddInt64(&wrong, 1)
+						first.CompareAndSwap(nil, fmt.Sprintf("want = %d: reached %v", want, got))
+					}
+				}
+			}()
+		}
+		wg.Wait()
+		rep.Evaluations++
+		rep.Nontrivial++
+		rep.Count("concurrent_instances")
+		if wrong > 0 {
+			rep.Violate("C04-choice", cs, fmt.Sprintf("%d instances were not routed by their own conditions, e.g. %v", wrong, first.Load()))
 		}
 	}
 	env.WriteReport(rep)
